@@ -19,7 +19,8 @@ from . import absmodel, core, tlc
 FEATURES = ["docstring", "future_import", "comments", "decorators", "nested_defs", "partial_annotations", "typing_import",
             "import_module_runtime", "import_alias", "import_in_function", "existing_tc_block", "star_import", "import_dotted",
             "class_level_code", "module_level_code", "respelled_annotations", "wordy_annotations", "relative_import",
-            "tc_import_in_try", "tc_import_in_function", "reexport_alias_import", "posonly_then_kwonly_params", "fallback_import_in_try", "latin1_source"]
+            "tc_import_in_try", "tc_import_in_function", "reexport_alias_import", "posonly_then_kwonly_params", "fallback_import_in_try", "latin1_source",
+            "fully_annotated_f2", "late_import_at_bottom"]
 
 
 def gen_source(feat):
@@ -85,6 +86,8 @@ def gen_source(feat):
               "'typing.Union[int, int, int, int, int, int, int, int]':", "    return x", ""]
     elif "partial_annotations" in f and "respelled_annotations" in f:
         L += ["def f2(x: 'int', y, z: int = None) -> \"int\":", "    return x", ""]
+    elif "fully_annotated_f2" in f:      # nothing left to annotate in f2 (a stub for it may still bring imports)
+        L += ["def f2(x: int, y: 'object', z: str = 's') -> int:", "    return x", ""]
     elif "partial_annotations" in f:
         L += ["def f2(x: int, y, z: str = 's') -> int:", "    return x", ""]
     else:
@@ -96,6 +99,8 @@ def gen_source(feat):
     L += ["def f3(d, /, *, lo=None, hi=0):" if "posonly_then_kwonly_params" in f else "def f3(d):"] + (["    from typing import TYPE_CHECKING"] if "tc_import_in_function" in f else []) + ["    return d", ""]
     if "module_level_code" in f:
         L += ["COUNTER[0] = f2(1, 2)", ""]
+    if "late_import_at_bottom" in f:     # the idiom for breaking an import cycle: the import is the LAST statement of the module
+        L += ["from zshapes import Circle  # noqa: E402", ""]
     return "\n".join(L) + "\n"
 
 
@@ -386,7 +391,8 @@ def run_case(case):
         k = case["k"]
         vals = {"circle": zshapes.Circle(), "square": zshapes.Square(), "int": 1, "str": "s", "none": None,
                 "list": [zshapes.Circle()], "dict": {"a": 1, "b": "x"}, "dictcls": {"n": 1, "shape": zshapes.Circle()},
-                "dictdeep": {"d": __import__("zsh.deep").deep.Deep(), "items": [zshapes.Square()]}, "deep": __import__("zsh.deep").deep.Deep(), "tm": __import__("typing_zm").TM()}
+                "dictdeep": {"d": __import__("zsh.deep").deep.Deep(), "items": [zshapes.Square()]}, "deep": __import__("zsh.deep").deep.Deep(), "tm": __import__("typing_zm").TM(),
+                "layer": zshapes.Canvas.Layer()}
         T = lambda v: get_type(vals[v], k)  # noqa: E731
         traces = []
         funcs = {"f1": (getattr(mod.f1, "__wrapped__", mod.f1), ["a", "b"]), "f2": (mod.f2, ["x", "y", "z"]),
@@ -540,7 +546,7 @@ def run_cases(cases, procs=16):
 
 
 TYPE_SELS = [["int"], ["circle", "int"], ["circle", "square"], ["list", "none"], ["dict"], ["str", "circle", "none"], ["deep"],
-             ["tm", "int"],
+             ["tm", "int"], ["layer"], ["layer", "circle"],
              # records whose values are instances of classes of other modules (with k > 0: fields of generated TypedDict classes)
              ["dictcls"], ["dictcls", "int"], ["dictdeep", "dict"]]
 
@@ -682,6 +688,13 @@ def signature(clause, rec, case):
         sig["deleted_resemble_stub_imports"] = bool(gone) and all(
             any(m == i["module"] and (i["kind"] == "import" or n == i["name"]) for m, n in stubm) for i in gone)
         sig.pop("source_imports_deleted")
+    if clause in ("Importable", "SameBehaviour", "ApplyFails", "Idempotent", "AnnotationsPresent", "ConfinedAllNew"):
+        # libcst turns the stub's `from zshapes import Canvas` + `Canvas.Layer` into `from zshapes.Canvas import Layer`: an import
+        # whose "module" is a CLASS.  A fact about the result (ast), next to the input that provokes it.
+        if any(j["kind"] == "from" and j["module"] == "zshapes.Canvas" for j in rec["res_imports"]) \
+                and any("layer" in case["types"][f] for f in case["traced"]):
+            sig = {"clause": clause, "confine": rec["confine"], "class_imported_as_if_it_were_a_module": True}
+            return sig
     if clause in ("RuntimeNeedsAtRuntime", "Importable", "ConfinedOnlyNewAnnotationOnly", "SameBehaviour"):
         sig["typeddict_import_confined"] = any(j["block"] == "tc" and j["name"] == "TypedDict" and j["runtime"] for j in rec["res_imports"])
     if clause == "ConfinedAllNew":
